@@ -279,7 +279,9 @@ def run_property(pid, tier="quick", seed=0, jobs=None):
     findings = load_findings()
     known = [k for k in findings.get("known", []) if k["property"] == pid]
     exclusions = {}
-    for k in known:
+    # an input class listed as a known finding of a function is excluded for every property whose
+    # clauses sit on that function (the defect is the function's, whichever property names it)
+    for k in findings.get("known", []):
         if k.get("target") and k.get("clause") and k.get("case"):
             exclusions.setdefault(k["target"], {}).setdefault(k["clause"], []).append(k["case"])
     cons = [c for c in REGISTRY.values() if pid in c.props and not c.trusted]
@@ -313,13 +315,19 @@ def run_property(pid, tier="quick", seed=0, jobs=None):
             sfuts = []
             for f in futs:
                 u = f.result()
+                if os.environ.get("PYVC_LOG"):
+                    print(f"  [gen {u['gen_s']:.1f}s paths={u['paths']} vcs={len(u.get('vcs', []))}] {u['target']} {u.get('in_case')}",
+                          file=sys.stderr, flush=True)
                 u["obligations"] = []
                 results.append(u)
                 for vc in u.pop("vcs"):
                     sfuts.append((u, ex.submit(solve_unit, (vc["name"], vc["kind"], vc["size"], vc["text"], tier,
                                                             u["target"], u["sc_index"], seed, u["in_case"]))))
             for u, f in sfuts:
-                u["obligations"].append(f.result())
+                rec = f.result()
+                u["obligations"].append(rec)
+                if os.environ.get("PYVC_LOG") and (rec["time"] > 5 or rec["status"] != "discharged"):
+                    print(f"  [{rec['status']} {rec['backend']} {rec['time']}s] {rec['name'][-110:]}", file=sys.stderr, flush=True)
             # one native witness search per function that has undecided VCs
             need = {}
             for u in results:
@@ -632,4 +640,6 @@ def main(argv=None):
 
 
 if __name__ == "__main__":
-    sys.exit(main())
+    # run through the importable module object, so that spec modules registering extras see the same EXTRA
+    from pyvc import check as _check
+    sys.exit(_check.main())
